@@ -14,6 +14,7 @@ import signal
 from .. import core, harness, probes, vloop
 
 PROP = 'C09'
+TECHNIQUE = ('runtime monitoring with fault enumeration: every error source logs the instant it fires; the exception reported by run_forever/shutdown/run/Circuit.error is compared with the first delivered one')
 LEVEL = 'fault_enumeration'
 RULE = ("case = (mode: run_forever task driven by the harness / edzed.run() with supporting "
         "tasks) x ordered tuple of 1..3 error sources from {handler error H, calc_output error C, "
